@@ -325,3 +325,53 @@ def to_case_geometry(ob):
                 for w in ("default", "hamming"):
                     out.append({"frame_length": L, "pad": pad, "frame_style": style, "kaldi_shift": kaldi, "window": w, "seed": 0})
     return out
+
+
+# ------------------------------------------------------------------------------------------
+# LinearFilterBankFrameComputer: the base class both computers build on - `num_coeffs` is the bank's filter count plus one iff the energy
+# coefficient was asked for (C02: "num_filts (+1 with include_energy) coefficients"), the bank is alias_factory_subclass_from_arg of the
+# bank family and of the constructor's argument, the flag is kept as a bool.
+# ------------------------------------------------------------------------------------------
+def unit_base_computer(prop="C02"):
+    def unit(tier, known):
+        from contracts.registry import run_contract
+
+        def setup_nc(ex, st):
+            nf = api.sym("num_filts")
+            st.assume(nf >= 0)
+            bank = api.mk_obj(st, "bank_obj", "Bank", {"num_filts": nf})
+            api.mk_obj(st, "self", "LinearFilterBankFrameComputer", {"_bank": bank, "_include_energy": api.sym("include_energy", "bool")})
+            ex.ctx = dict(nf=nf)
+
+        c1 = Contract(target="compute:LinearFilterBankFrameComputer.num_coeffs", uses=["A-PYSEM"], consts={"NF": SpecFn(lambda ev: ev.ex.ctx["nf"])},
+                      ensures=[("filters_plus_one_iff_energy", "result == NF() + (1 if self._include_energy else 0)")])
+        u = run_contract(prop, ("compute", "LinearFilterBankFrameComputer.num_coeffs"), c1, [("", setup_nc)], name="base_computer", fname="LFBFC.num_coeffs",
+                         to_case=to_case_geometry, replay_module="rtc.c02")
+
+        def setup_init(ex, st):
+            api.mk_obj(st, "self", "LinearFilterBankFrameComputer", {})
+            st.env.update(bank=Opaque("BANK_ARG", "arg"), include_energy=api.sym("include_energy_arg", "bool"))
+            ex.ctx = {}
+
+        def h_factory(ex, st, args, kwargs, node, ev):
+            ok = len(args) == 2 and isinstance(args[0], Opaque) and args[0].term == "LinearFilterBank" and args[1] is st.env["bank"] and not kwargs
+            return Opaque(("bank_built", ok), "bank")
+
+        def init_ok(ev):
+            f = ev.st.fields
+            b = f.get(("self", "_bank"))
+            e = f.get(("self", "_include_energy"))
+            return z3.And(z3.BoolVal(isinstance(b, Opaque) and b.term == ("bank_built", True)), Zb(e) == Zb(ev.st.env["include_energy"])) if e is not None else z3.BoolVal(False)
+
+        c2 = Contract(target="compute:LinearFilterBankFrameComputer.__init__", uses=["A-PYSEM"],
+                      consts={"LinearFilterBank": Opaque("LinearFilterBank", "class"), "INIT_OK": SpecFn(init_ok)},
+                      handlers={"alias_factory_subclass_from_arg": h_factory},
+                      ensures=[("bank_from_the_argument_flag_kept", "INIT_OK()")])
+        u2 = run_contract(prop, ("compute", "LinearFilterBankFrameComputer.__init__"), c2, [("", setup_init)], name="base_computer", fname="LFBFC.__init__")
+        u.obligations += u2.obligations
+        u.outside += u2.outside
+        u.functions += u2.functions
+        u.assumptions |= u2.assumptions
+        return u
+    unit.__name__ = "base_computer"
+    return unit
